@@ -118,3 +118,10 @@ Theorem C12_roundtrip_reader : forall smax rmax hls f,
     encode smax f = EOk bs /\
     map raw_event_frame (snd (feed hp_raw (rinit [] rmax hls) bs)) = [Some f].
 Proof. exact ReadBufProofs.C12_roundtrip_reader. Qed.
+
+(* (literal HPACK instance) a header block that a fragment made malformed is never delivered by a later
+   CONTINUATION, wherever the block was cut *)
+Theorem C12_malformed_block_never_delivered : forall mh mc p (hs : lit_state) bytes f hs'',
+  lt_malformed hs = true ->
+  snd (decode_frame hp_lit mh mc (Some p) hs bytes) <> DEvent (EvHeaders f hs'').
+Proof. exact ReadBufProofs.malformed_block_never_delivered. Qed.
